@@ -10,6 +10,8 @@ import Gotree.Model.C16Cli
 import Gotree.Model.C16CliRun
 import Gotree.Model.C16TopoCli
 import Gotree.Model.C16DepthGo
+import Gotree.Model.C16DepthGoU
+import Gotree.Spec.C16DepthDist
 
 namespace Gotree.Driver.C16
 open Gotree Gotree.Driver Gotree.C16
@@ -126,6 +128,9 @@ def handleGen (f : List String) : Verdict :=
             else if !(match depthObs with | some ds => depthsOK t ds | none => false) then
               ⟨.oracle, tags, "index not ready: Node.Depth() is not the number of branches to the closest tip (below the node when rooted): " ++
                 toString (depthObs.getD []) ++ " instead of " ++ toString (depthsOf t)⟩
+            else if !t.rooted && !(match depthObs with | some ds => tipDistOKInt (adjOf t) ds | none => false) then
+              ⟨.oracle, tags, "index not ready: Node.Depth() of an unrooted tree is not the number of branches to the closest tip (tipDistOK, theorem tipDistOK_sound): " ++
+                toString (depthObs.getD [])⟩
             else if !(match iob with | some ob => indexOK t tips ob | none => false) then
               ⟨.oracle, tags, "index not ready: a branch record (bitset, taxon counts, TopoDepth) or a TipIndex is not what the split prescribes (C04.branchOK)"⟩
             else
@@ -133,13 +138,17 @@ def handleGen (f : List String) : Verdict :=
               | .ok o =>
                 let exact := (eraseIds o.t).dump == (eraseIds t).dump
                 let tags := tags ++ tagIf exact "exact" ++ tagIf (lensEq o.t t) "lens-exact" ++ tagIf iob.isSome "index-records" ++ tagIf depthObs.isSome "node-depths" ++
-                  tagIf (o.t.rooted && depthObs == some (goComputeDepthsRooted o.t)) "depths-go-rooted"
+                  tagIf (o.t.rooted && depthObs == some (goComputeDepthsRooted o.t)) "depths-go-rooted" ++
+                  tagIf (!t.rooted && depthObs == goComputeDepthsUnrooted t) "depths-go-unrooted"
                 if sync != "ok" then ⟨.tie, tags, "draw protocol: the code did not consume the scripted draws"⟩
                 else if !scriptOK then ⟨.tie, tags, "draw protocol: the harness script is not the model's"⟩
                 else if !obsEq o.t t then ⟨.tie, tags, "model tree " ++ o.t.dump⟩
                 else if !indexReady o then ⟨.tie, tags, "model index not ready"⟩
                 else if exact && !(match depthObs with | some ds => depthsOK o.t ds | none => false) then
                   ⟨.tie, tags, "node depths differ from the model's"⟩
+                else if !t.rooted && depthObs != goComputeDepthsUnrooted t then
+                  ⟨.tie, tags, "node depths differ from the model of computeDepthUnRooted run on the returned tree: " ++
+                    toString (goComputeDepthsUnrooted t)⟩
                 else if o.t.rooted && exact && depthObs != some (goComputeDepthsRooted o.t) then
                   ⟨.tie, tags, "node depths differ from the model of computeDepthRecurRooted on the model's tree"⟩
                 else if !(match iob with | some ob => indexTie C04.fnv1a o t ob | none => false) then
